@@ -550,6 +550,11 @@ func (r *RIB) addEntryInternal(ni string, op *spb.AFTOperation, oks, fails *[]*O
 
 	switch {
 	case opErr != nil:
+		// This operation can never be installed. If it was pending, forget it, and
+		// mark it as handled within this stack, so that it is reported as failed
+		// exactly once rather than on every subsequent retry of the pending entries.
+		installStack[op.GetId()] = true
+		r.rmPending(op.GetId())
 		*fails = append(*fails, &OpResult{
 			ID:    op.GetId(),
 			Op:    op,
